@@ -207,10 +207,27 @@ def run(ctx, report):
                 for hname, hnd in subs:
                     n_meta, n_info = hnd.count(), hnd.info["rows"]
                     n_rg = sum(rg.num_rows for rg in hnd.row_groups)
-                    n_read = len(hnd.to_pandas(columns=columns, categories=cats, index=idx)) if len(hnd.row_groups) else 0
+                    sub_read = hnd.to_pandas(columns=columns, categories=cats, index=idx) if len(hnd.row_groups) else None
+                    n_read = len(sub_read) if sub_read is not None else 0
                     if not (n_meta == n_info == n_rg == n_read):
                         probs.append(f"{hname}: count() = {n_meta}, info['rows'] = {n_info}, row groups add up to {n_rg}, a read gives {n_read} rows")
                         break
+                    # ... and so must the dtypes they report
+                    if sub_read is not None:
+                        sub_pred = dict(hnd._dtypes(cats))
+                        bad = [f"{hname}: dtype of {c}: predicted {dname(sub_pred[c])}, read {dname(sub_read[c].dtype)}"
+                               for c in sub_read.columns if c in sub_pred and dname(sub_pred[c]) != dname(sub_read[c].dtype)]
+                        if bad:
+                            probs.append(bad[0])
+                            break
+                # a handle that went through pickling is a dataset handle as well
+                import pickle
+                hp = pickle.loads(pickle.dumps(pf))
+                rp = hp.to_pandas(columns=columns, categories=cats, index=idx)
+                pp = dict(hp._dtypes(cats))
+                bad = [f"unpickled handle: dtype of {c}: predicted {dname(pp[c])}, read {dname(rp[c].dtype)}"
+                       for c in rp.columns if c in pp and dname(pp[c]) != dname(rp[c].dtype)]
+                probs += bad[:1]
                 report.count("derived-handles:" + str(len(subs)))
             except Exception as e:  # noqa
                 probs.append("derived handle: metadata query or read raised " + canon_err(e) + " " + str(e)[:80])
@@ -224,7 +241,60 @@ def run(ctx, report):
             report.count("variant:" + variant)
             report.stream("dtype.predict")
         shutil.rmtree(path, ignore_errors=True) if os.path.isdir(path) else (os.path.exists(path) and os.remove(path))
+    multi_file_categories(ctx, report)
     _flush(ctx, report, reqs)
+
+
+def multi_file_categories(ctx, report):
+    """a dataset opened from a LIST of part files whose categorical dictionaries differ in size: the category count the
+    handle reports must cover what a read produces (and the read must work), as for the same files opened by directory"""
+    import fastparquet
+    # dictionaries grow from file to file and agree on their common prefix: a later file with FEWER labels runs into the
+    # known finding C14-categorical-relabel (codes of earlier files outlive their dictionary), which is C14's business
+    for sizes in ([10, 50], [10, 200], [3, 3], [2, 100, 130]):
+        d = os.path.join(ctx.workdir("c17"), "multi")
+        shutil.rmtree(d, ignore_errors=True)
+        os.makedirs(d)
+        files, frames = [], []
+        for k, ncat in enumerate(sizes):
+            labels = [f"L{j:03d}" for j in range(ncat)]
+            df = pd.DataFrame({"rid": np.arange(k * 1000, k * 1000 + ncat, dtype="int64"),
+                               "c": pd.Categorical(labels, categories=labels)})
+            fn = os.path.join(d, f"part.{k}.parquet")
+            fastparquet.write(fn, df, write_index=False)
+            files.append(fn)
+            frames.append(df)
+        rec = {"check": "multi-file-categories", "dictionary_sizes": sizes}
+        ctx.crumb(rec)
+        probs = []
+        try:
+            for how, arg in (("list", files), ("directory", d)):
+                pf = fastparquet.ParquetFile(arg)
+                reported = dict(pf.categories).get("c")
+                pred = dname(dict(pf._dtypes())["c"])
+                got = pf.to_pandas()
+                nread = len(got["c"].cat.categories) if dname(got["c"].dtype) == "category" else None
+                if pred != dname(got["c"].dtype):
+                    probs.append(f"opened by {how}: dtype of c predicted {pred}, read {dname(got['c'].dtype)}")
+                if nread is not None and (reported is None or int(reported) < nread):
+                    probs.append(f"opened by {how}: the handle reports {reported} categories, the read produced {nread}")
+                want = [v for f in frames for v in f["c"].astype(object).tolist()]
+                if dname(got["c"].dtype) == "category":
+                    # never hand an inconsistent Categorical to pandas (it can crash the process): go through the codes
+                    labels_read = list(got["c"].cat.categories)
+                    have = [labels_read[k_] if 0 <= k_ < len(labels_read) else f"<code {k_} outside {len(labels_read)} categories>"
+                            for k_ in np.asarray(got["c"].cat.codes).tolist()]
+                else:
+                    have = got["c"].tolist()
+                if have != want or pf.count() != len(want):
+                    probs.append(f"opened by {how}: values / count differ from the files' content")
+        except Exception as e:  # noqa
+            probs.append("metadata query or read raised " + canon_err(e) + " " + str(e)[:100])
+        if probs:
+            report.violation({**rec, "what": "; ".join(probs)[:400], "sig": "multi-cats:" + probs[0][:30]})
+        report.case(("multi-cats", tuple(sizes)), nontrivial=sizes[0] != sizes[1])
+        report.count("multi-file-categories")
+        shutil.rmtree(d, ignore_errors=True)
 
 
 def _flush(ctx, report, reqs):
